@@ -427,6 +427,15 @@ def handle (req : Json) : Except String Json := do
   | "cfg" => handleCfg req
   | "gitfiles" => handleGitFiles req
   | "web" => handleWeb req
+  | "builtinmerge" => do
+      let l ← req.getObjValAs? String "local"
+      let r ← req.getObjValAs? String "remote"
+      let (m, st) := Nbdime.Render.builtinMerge l.toList r.toList
+      pure (Json.mkObj [("ok", .arr #[.str (String.ofList m), toJson st])])
+  | "validcell" => do
+      let cell ← decJ (req.getObjValD "cell")
+      let minor ← jnat (req.getObjValD "minor")
+      pure (Json.mkObj [("ok", .bool (Nbdime.NbShape.validCell minor cell))])
   | "apply" => do
       let base ← decJ (req.getObjValD "base")
       let ds ← decDecisions (req.getObjValD "decisions")
